@@ -147,17 +147,21 @@ func proxyRaw(t *ProxyTarget, c echo.Context, config ProxyConfig) http.Handler {
 	}
 
 	return http.HandlerFunc(func(w http.ResponseWriter, r *http.Request) {
+		// Dial the target before taking over the client connection: when the target is unreachable
+		// the connection must stay usable, so that the request can be retried with the next target
+		// or answered with 502 Bad Gateway.
+		out, err := dialFunc(c.Request().Context(), "tcp", t.URL.Host)
+		if err != nil {
+			c.Set("_error", echo.NewHTTPError(http.StatusBadGateway, fmt.Sprintf("proxy raw, dial error=%v, url=%s", err, t.URL)))
+			return
+		}
+		defer out.Close()
 		in, _, err := c.Response().Hijack()
 		if err != nil {
 			c.Set("_error", fmt.Errorf("proxy raw, hijack error=%w, url=%s", err, t.URL))
 			return
 		}
 		defer in.Close()
-		out, err := dialFunc(c.Request().Context(), "tcp", t.URL.Host)
-		if err != nil {
-			c.Set("_error", echo.NewHTTPError(http.StatusBadGateway, fmt.Sprintf("proxy raw, dial error=%v, url=%s", err, t.URL)))
-			return
-		}
 
 		// Write header
 		err = r.Write(out)
